@@ -31,9 +31,9 @@ type evalSite struct {
 	Inst      ssa.Value
 	Schema    ssa.Value
 	Anns      ssa.Value
-	Loc       string   // same | child | ?
-	SchemaSrc []string // e.g. Schema.AllOf, resolvedInfo.resolvedRef
-	AnnsKind  string   // frame | nil | caller | ?
+	Loc       string            // same | child | ?
+	SchemaSrc []string          // e.g. Schema.AllOf, resolvedInfo.resolvedRef
+	AnnsKind  string            // frame | nil | caller | ?
 	Levels    []ssa.Instruction // the call itself, then the call sites (of helpers or of the closure) that lead to it, innermost first
 }
 
